@@ -39,6 +39,11 @@ claimed = {
          "Mac Roman: all 65536 two-byte strings in both directions against the published table. name.Info: every supported Macintosh and Windows language (all table entries) x 16 name ids x strings; all subsets of a 6-language set x shared/distinct strings x three size classes; every BMP scalar and the surrogate corner cases through Windows records; an independent parser checks platform/language ids and raw string encodings. Every script x language pair of the OpenType tag tables goes OTF -> BCP 47 -> OTF and through gtab.Info.Encode/gtab.Read with the raw 4-byte tags checked. post: all name lists of length <= 4 over a 6-name alphabet, the standard Macintosh order, all its prefixes, permutations, 259 and 1000 names, read back by the library and by an independent post parser.",
          "Mac strings are over the Mac Roman repertoire (0xDB = euro as the library documents); glyph names are at most 255 bytes; known finding: name storage above 64 KiB is written corrupt.",
          "DESIGN.md 4/C14"),
+ "C11": ("model_checking",
+         "bounded exhaustive enumeration of glyf/loca inputs built by an independent assembler; independent simple-glyph point decoder",
+         "All glyph sets of 1..2 (quick) / 1..3 glyphs: the first glyph from the full alphabet {empty; simple with 0..2 contours, 1..3 points, coordinates at the 8/16-bit boundaries, long / short / repeat-packed flags, instructions, 0/1/3 padding bytes; composite with 1..3 components, byte/word arguments, all four transform sizes, absent / empty / 2-byte instructions}, further glyphs from a reduced alphabet, short and long loca. Decode -> Encode -> Decode must be the identity (glyph bytes preserved bit for bit, second Encode identical), loca non-decreasing / even / inside glyf / spanning it, SimpleGlyph.Decode equal to an independent specification decoder, Components/FixComponents exact and non-aliasing. Scaled sets around the 64 KiB and 128 KiB boundaries and 65535 glyphs.",
+         "Coordinates and sizes from the stated boundary sets; x/image's rasteriser view of outlines is covered in C03.",
+         "DESIGN.md 4/C11"),
 }
 checks = []
 na = []
